@@ -13,19 +13,20 @@ def run_seed(sd):
     os.rmdir(w)
     subprocess.run(["git", "-C", "/repo", "worktree", "add", "-q", "--detach", w, "HEAD"], check=True)
     ev = tempfile.mkdtemp(prefix="ps_mx_ev_")
+    lean = tempfile.mkdtemp(prefix="ps_mx_lean_"); os.rmdir(lean)
+    shutil.copytree(os.path.join(VERIF, "lean"), lean, symlinks=True)      # generated Lean files are rewritten per mutant: private copy
     res = {}
     try:
         subprocess.run(["git", "-C", w, "apply", os.path.join(VERIF, "seeded", sd, "patch.diff")], check=True)
         for p in PROPS:
-            if p in ("C19", "C20"):
-                continue          # C19 / C20 rewrite lean/PsVerif/Generated/*.lean: run serially below
-            env = dict(os.environ, PYSENSORS_REPO=w, VERIF_EVIDENCE_DIR=ev)
+            env = dict(os.environ, PYSENSORS_REPO=w, VERIF_EVIDENCE_DIR=ev, VERIF_LEAN_DIR=lean)
             r = subprocess.run([os.path.join(VERIF, "check"), p], cwd=VERIF, env=env, capture_output=True, text=True)
             concrete = any(l.startswith("VIOLATION") and "no-failing-input-found" not in l for l in r.stdout.splitlines())
             res[p] = {"exit": r.returncode, "concrete": concrete}
     finally:
         subprocess.run(["git", "-C", "/repo", "worktree", "remove", "--force", w])
         shutil.rmtree(ev, ignore_errors=True)
+        shutil.rmtree(lean, ignore_errors=True)
     return sd, res
 
 out = {}
@@ -33,20 +34,6 @@ with ThreadPoolExecutor(max_workers=6) as ex:
     for sd, res in ex.map(run_seed, only):
         out[sd] = res
         print(sd, "caught by:", [p for p, v in res.items() if v["exit"] == 1], flush=True)
-# C19 and C20 serially
-for sd in only:
-    w = tempfile.mkdtemp(prefix=f"ps_mx_{sd}_"); os.rmdir(w)
-    subprocess.run(["git", "-C", "/repo", "worktree", "add", "-q", "--detach", w, "HEAD"], check=True)
-    ev = tempfile.mkdtemp(prefix="ps_mx_ev_")
-    try:
-        subprocess.run(["git", "-C", w, "apply", os.path.join(VERIF, "seeded", sd, "patch.diff")], check=True)
-        for p in ("C19", "C20"):
-            r = subprocess.run([os.path.join(VERIF, "check"), p], cwd=VERIF, env=dict(os.environ, PYSENSORS_REPO=w, VERIF_EVIDENCE_DIR=ev), capture_output=True, text=True)
-            out[sd][p] = {"exit": r.returncode, "concrete": any(l.startswith("VIOLATION") and "no-failing-input-found" not in l for l in r.stdout.splitlines())}
-            print(sd, p, "exit", r.returncode, flush=True)
-    finally:
-        subprocess.run(["git", "-C", "/repo", "worktree", "remove", "--force", w])
-        shutil.rmtree(ev, ignore_errors=True)
 path = os.path.join(VERIF, "seeded", "matrix.json")
 old = json.load(open(path)) if os.path.exists(path) else {}
 old.update(out)
